@@ -202,3 +202,100 @@ Proof.
 Qed.
 Corollary coh_sorted_order_sets l : Order.sorted (map ord_net l) = map ord_net (Sets.sorted l).
 Proof. rewrite coh_sorted_sets_contains. apply coh_sorted_order_contains. Qed.
+
+(* ================================================================ IPSet.__getstate__ / __setstate__ (sets.py 124-136)
+   modelled in Sets (C06: pickling inside set histories) and in Order (C12: pickled state of every class).
+   Order follows the source literally (build every IPNetwork, then one dict.fromkeys); Sets deduplicates while it
+   recurses.  Equal for every state whose version fields are 4 or 6 — and NOT otherwise: see the example below. *)
+Definition state3 (t : Z * Z * Z) : list Z := let '(v, p, ver) := t in [v; p; ver].
+
+Lemma coh_ipset_getstate d : Order.ipset_getstate (map ord_net d) = map state3 (Sets.set_getstate d).
+Proof. unfold Order.ipset_getstate, Sets.set_getstate. rewrite !map_map. reflexivity. Qed.
+
+Lemma key_eqb_true a b : Sets.key_eqb a b = true <-> nver a = nver b /\ Sets.nf a = Sets.nf b /\ Sets.nl a = Sets.nl b.
+Proof. unfold Sets.key_eqb. rewrite !andb_true_iff, !Z.eqb_eq. tauto. Qed.
+Lemma dmem_true k d : Sets.dmem k d = true <-> exists a, In a d /\ Sets.key_eqb k a = true.
+Proof. unfold Sets.dmem. apply existsb_exists. Qed.
+
+(* the keys a dict gains when the items of l are assigned in order *)
+Fixpoint gained (acc : Sets.dict) (l : list net) : list net :=
+  match l with
+  | [] => []
+  | x :: t => if Sets.dmem x acc then gained acc t else x :: gained (acc ++ [x]) t
+  end.
+Lemma fold_dset_gained l : forall acc, fold_left Sets.dset l acc = acc ++ gained acc l.
+Proof.
+  induction l as [|x t IH]; intros acc; cbn [fold_left gained]; [symmetry; apply app_nil_r|].
+  unfold Sets.dset at 2. destruct (Sets.dmem x acc); rewrite IH; [reflexivity|]. rewrite <- app_assoc. reflexivity.
+Qed.
+Definition covered_by (acc' acc : Sets.dict) : Prop := forall a, In a acc' -> Sets.dmem a acc = true.
+Lemma dmem_covered y acc' acc : covered_by acc' acc -> Sets.dmem y acc' = true -> Sets.dmem y acc = true.
+Proof.
+  intros C H. apply dmem_true in H. destruct H as (a' & Ha' & E1). pose proof (C a' Ha') as H2.
+  apply dmem_true in H2. destruct H2 as (a & Ha & E2). apply dmem_true. exists a. split; [exact Ha|].
+  apply key_eqb_true in E1, E2. apply key_eqb_true. intuition congruence.
+Qed.
+Lemma dmem_self y acc : Sets.dmem y (acc ++ [y]) = true.
+Proof. apply dmem_true. exists y. split; [apply in_or_app; right; left; reflexivity|]. apply key_eqb_true. tauto. Qed.
+Lemma dmem_app_l y acc z : Sets.dmem y acc = true -> Sets.dmem y (acc ++ [z]) = true.
+Proof. unfold Sets.dmem. rewrite existsb_app. intros ->. reflexivity. Qed.
+(* deduplicating an already deduplicated list changes nothing *)
+Lemma gained_gained t : forall acc acc', covered_by acc' acc -> gained acc (gained acc' t) = gained acc t.
+Proof.
+  induction t as [|y t IH]; intros acc acc' C; cbn [gained]; [reflexivity|].
+  destruct (Sets.dmem y acc') eqn:E'.
+  - rewrite (dmem_covered y acc' acc C E'). apply IH, C.
+  - cbn [gained]. destruct (Sets.dmem y acc) eqn:E.
+    + apply IH. intros a Ha. apply in_app_or in Ha. destruct Ha as [Ha|[<-|[]]]; [apply C, Ha|exact E].
+    + f_equal. apply IH. intros a Ha. apply in_app_or in Ha.
+      destruct Ha as [Ha|[<-|[]]]; [apply dmem_app_l, C, Ha|apply dmem_self].
+Qed.
+Lemma dfromkeys_cons_dedup n ns : Sets.dfromkeys (n :: Sets.dfromkeys ns) = Sets.dfromkeys (n :: ns).
+Proof.
+  unfold Sets.dfromkeys. cbn [fold_left]. rewrite (fold_dset_gained ns []). cbn [app].
+  rewrite !fold_dset_gained. f_equal. apply gained_gained. intros a [].
+Qed.
+
+Lemma existsb_py_eq x acc :
+  existsb (fun y => Order.py_eq y (ord_net x)) (map ord_net acc) = Sets.dmem x acc.
+Proof.
+  unfold Sets.dmem. induction acc as [|a acc IH]; cbn [map existsb]; [reflexivity|].
+  rewrite IH, <- coh_key_eqb. f_equal.
+  apply C04.bool_eq_iff. rewrite !key_eqb_true. intuition congruence.
+Qed.
+Lemma fromkeys_fold l : forall acc,
+  Order.fromkeys (map ord_net acc) (map ord_net l) = map ord_net (fold_left Sets.dset l acc).
+Proof.
+  induction l as [|x t IH]; intros acc; cbn [map Order.fromkeys fold_left]; [reflexivity|].
+  rewrite existsb_py_eq. unfold Sets.dset at 2. destruct (Sets.dmem x acc); [apply IH|].
+  rewrite <- IH, map_app. reflexivity.
+Qed.
+
+Lemma setstate_both st : Forall (fun t => valid_ver (snd t) = true) st ->
+  (exists e, Order.ipset_build (map state3 st) = Raise e /\ Sets.set_setstate st = Raise e) \/
+  (exists ns, Order.ipset_build (map state3 st) = Ok (map ord_net ns) /\ Sets.set_setstate st = Ok (Sets.dfromkeys ns)).
+Proof.
+  induction 1 as [|[[v p] ver] r Hv _ IH]; [right; exists []; split; reflexivity|].
+  cbn [snd] in Hv. cbn [map state3 Order.ipset_build Sets.set_setstate].
+  rewrite coh_tuple_order, coh_tuple_mk_net, Hv.
+  destruct (Span.net_of_tuple width ver v p) as [n|e]; cbn [omap bind]; [|left; exists e; split; reflexivity].
+  destruct IH as [(e & -> & ->)|(ns & -> & ->)]; cbn [bind].
+  - left. exists e. split; reflexivity.
+  - right. exists (n :: ns). split; [reflexivity|]. rewrite dfromkeys_cons_dedup. reflexivity.
+Qed.
+
+Theorem coh_ipset_setstate st : Forall (fun t => valid_ver (snd t) = true) st ->
+  Order.ipset_setstate (map state3 st) = omap (map ord_net) (Sets.set_setstate st).
+Proof.
+  intros V. unfold Order.ipset_setstate.
+  destruct (setstate_both st V) as [(e & -> & ->)|(ns & -> & ->)]; cbn [omap]; [reflexivity|].
+  f_equal. apply (fromkeys_fold ns []).
+Qed.
+
+(* the hypothesis is needed: the Sets copy builds the networks with Span.net_of_tuple, which has no version check
+   (its callers pass the version of a live object), the Order copy with the full constructor.  Real netaddr:
+   IPSet().__setstate__(((1, 32, 5),)) raises ValueError('5 is an invalid IP version!') — the Order copy is right. *)
+Example coh_ipset_setstate_invalid_version_differs :
+  Order.ipset_setstate (map state3 [(1, 32, 5)]) = Raise ValueError /\
+  Sets.set_setstate [(1, 32, 5)] = Ok [{| nver := 5; nval := 1; nplen := 32 |}].
+Proof. split; vm_compute; reflexivity. Qed.
